@@ -1,6 +1,6 @@
 # Sizing and claim for C15 (see props/__init__.py)
 SPEC = {
-        "quick": {"rc_cases": 60000, "rc_procs": 4, "enum": True},
+        "quick": {"rc_cases": 120000, "rc_procs": 8, "enum": True},
         "thorough": {"rc_cases": 150000, "rc_procs": 8, "enum": True, "fuzz_secs": 180, "fuzz_workers": 16},
         "claim": {
             "category": "exploration",
